@@ -47,7 +47,11 @@ type BatchResult struct {
 	Hashes     []string         `json:"hashes"` // distinct event-log hashes of non-trivial runs
 	Samples    []Sample         `json:"samples"`
 	Violations []Found          `json:"violations"`
-	Troubles   []string         `json:"troubles"`
+	// SigRuns counts, per violation signature, every run of this worker that showed it (Violations
+	// keeps only the first few runs per signature, so that a frequent signature - a known finding,
+	// say - cannot crowd out a rare one)
+	SigRuns  map[string]int64 `json:"sig_runs"`
+	Troubles []string         `json:"troubles"`
 	NextIndex  int              `json:"next_index"`
 	WallS      float64          `json:"wall_s"`
 }
@@ -186,7 +190,7 @@ func oraclePhase() { inOracle.Store(true) }
 
 func batch(t *testing.T, p *Prop) {
 	start := time.Now()
-	res := &BatchResult{Worker: *fWorker, Layer: *fLayer, Counters: map[string]int64{}}
+	res := &BatchResult{Worker: *fWorker, Layer: *fLayer, Counters: map[string]int64{}, SigRuns: map[string]int64{}}
 	hashes := map[string]bool{}
 	journal := filepath.Join(*fOut, fmt.Sprintf("journal-%s-%d.json", *fLayer, *fWorker))
 	var rw *raceWatch
@@ -299,8 +303,23 @@ func batch(t *testing.T, p *Prop) {
 		if len(res.Samples) < 3 && out.Nontrivial {
 			res.Samples = append(res.Samples, Sample{Seed: seed, Plan: pl, Summary: out.Sample, Hash: out.Hash})
 		}
-		if len(out.Violations) > 0 && len(res.Violations) < 50 {
-			res.Violations = append(res.Violations, Found{Seed: seed, Plan: pl, Outcome: out})
+		if len(out.Violations) > 0 {
+			keep := false
+			seen := map[string]bool{}
+			for _, v := range out.Violations {
+				sg := v.Sig()
+				if seen[sg] {
+					continue
+				}
+				seen[sg] = true
+				res.SigRuns[sg]++
+				if res.SigRuns[sg] <= 3 {
+					keep = true
+				}
+			}
+			if keep && len(res.Violations) < 400 {
+				res.Violations = append(res.Violations, Found{Seed: seed, Plan: pl, Outcome: out})
+			}
 		}
 		if k%64 == 63 {
 			flush()
